@@ -250,19 +250,23 @@ CLAIMED.update({
 })
 
 CLAIMED.update({
- 'C01': ('Coq proof over the Gallina model of wn._add.add_lexical_resource (document -> rows) composed, outside Coq, with the '
-         'query-layer model (rows -> API; theorems of C04/C09/C10/C11); the add model is tied to the code by row-for-row '
-         'comparison of all tables after every add, the query model by the observation battery; a document-level oracle on '
-         'the real code compares every API answer with the generated document (per lexicon scope and in default mode, with '
-         'queries interleaved between adds and a churn of rowids)',
-         'Partial. Theorems (closed under the global context), for every database, normaliser table and resource: batching loses '
-         'nothing; one lexicons row per lexicon that is not skipped, in document order, with all attributes; for each such '
-         'lexicon exactly its local entries, forms (lemma rank 0, then document order), synsets (ILI resolved, proposed ILIs with '
-         'their definition), senses (entry rank, synset rank from members) and children/relations/frames rows, one per '
-         'declaration, in document order, cell by cell, with consecutive fresh rowids; nothing else changes and references stay '
-         'valid. Not proved in Coq: tags and pronunciations rows; the composition "API answer = document" itself (the two models '
-         'use different table representations; the composition is decided end to end by the oracle and by both correspondences '
-         'on the same databases). Known finding F3 (tags/pronunciations of extensions have no owner).',
+ 'C01': ('Coq proof over the Gallina model of wn._add.add_lexical_resource (document -> rows) composed INSIDE Coq with the '
+         'query-layer model (rows -> API) through a bridge between the two table representations; the add model is tied to the '
+         'code by row-for-row comparison of all tables after every add, the query model by the observation battery; a '
+         'document-level oracle on the real code compares every API answer with the generated document (per lexicon scope and in '
+         'default mode, with queries interleaved between adds and a churn of rowids)',
+         'Theorems (closed under the global context), for every database, normaliser table and resource: batching loses nothing; '
+         'one lexicons row per lexicon that is not skipped, in document order, with all attributes; for each such lexicon exactly '
+         'its local entries, forms (lemma rank 0, then document order), synsets (ILI resolved, proposed ILIs with their '
+         'definition), senses (entry rank, synset rank from members) and children/relations/frames rows, one per declaration, in '
+         'document order, cell by cell; nothing else changes. Capstone (composition): after adding a resource with one new '
+         'non-extension lexicon to any consistent database, a Wordnet restricted to it lists through synsets(), words() and '
+         'senses() exactly the document\'s synsets, entries and senses in document order with their ids, parts of speech and forms '
+         '(lemma first, then the further forms with id and script), and every sense navigates to the word and synset the document '
+         'names; each hypothesis is shown necessary by a witness, and hypotheses and conclusions are evaluated on databases '
+         'recorded from the implementation. Partial: the capstone covers ids/pos/forms/navigation for a single new lexicon; '
+         'examples, counts, frames, definitions, tags, pronunciations, metadata, extensions in scope and default mode are covered '
+         'row-wise (document -> rows) and by the oracle on the real code, not by a composed theorem. Known finding F3.',
          ADD_TRUST, 'DESIGN.md section 5 C01, Appendix E'),
 })
 
